@@ -91,6 +91,8 @@ structure InstW where
   orphanTok : Option Nat := none -- token of an acquiring write of this run acknowledged after the run had ended (stop call begun / context cancelled): never claimed, the record exists
   lastAckRev : Nat := 0         -- revision of its latest successful write whose answer was delivered
   lastAckAt : Nat := 0          -- when that answer was delivered
+  lastAcqRev : Nat := 0         -- revision of its latest acknowledged acquiring write (Create, takeover Update)
+  lastAcqAt : Nat := 0          -- when that answer was delivered
   lastDeleteFailedAt : Option Nat := none   -- its latest Delete that was refused, lost or not answered in time
   claimedToks : List Nat := []  -- tokens for which the flag was raised
   ctxs : List CtxW := []
